@@ -57,6 +57,8 @@ BUNDLE_KINDS = {
     "pref": ["pref", "c2", "bp"],
     "nc": None,
     "bref-sub": ["bref", "b3", ["lo"]],
+    # members that are references to ports which are themselves tied to bundle members
+    "anon-pref-to-bref": ["anon", {"x": ["pref", "o3", "y"], "y": ["pref", "o4", "x"]}],
 }
 
 
